@@ -216,8 +216,8 @@ impl Prop for C04 {
 
     fn rule(&self) -> String {
         "cases = (a generated tree up to depth 4 over a name pool with ASCII, Unicode, spaces and a 66-character name (paths > 100 bytes), extensions incl. the empty one, same stem with several extensions, a directory and a file sharing an id, \
-         empty directories, contents empty / small / 20-100 KiB; archive options: member order permutation, directory members all / none / random subset, './' prefix, file members spelled `zz/../<path>`, stored or deflated per member, an outdated earlier member of one path (the last member is the stored one), in-memory or file-backed reader; 1..4 reader threads; in a third of the cases also a copy of the zip archive with one flipped data byte in one stored member: reading that member must fail or give the tree's bytes, never other bytes). \
-         The tree is materialised on disk (FileSystem), as zip, as tar and - by running the embed! macro's own expansion code on the directory and evaluating the produced table - as Embedded. \
+         empty directories, contents empty / small / 20-100 KiB; archive options: member order permutation, directory members all / none / random subset, './' prefix, file members spelled `zz/../<path>`, stored or deflated per member, an outdated earlier member of one path (the last member is the stored one), in-memory or file-backed reader; 1..4 reader threads; in a third of the cases also a copy of the zip archive with one flipped data byte in one stored member: reading that member must fail or give the tree's bytes, never other bytes; and a copy of the tar archive cut inside the data of its last member: the same). \
+         The tree is materialised on disk (FileSystem), as zip, as tar and - by running the embed! macro's own expansion code on the directory and evaluating the produced table - as Embedded (as the macro writes the table, and the same table with its lists in another order). \
          Oracle = the generated tree itself: read gives the stored bytes, read_dir lists every direct child exactly once with kind/id/ext, exists agrees, listed entries are readable, absent entries (fresh ids, wrong extension, wrong kind) do not exist and fail to read (NotFound unless the other kind occupies the path). \
          non-trivial = a tree with >= 2 levels and a directory without an archive member of its own, or a non-identity member order; distinct = different canonical JSON"
             .into()
@@ -365,7 +365,7 @@ impl Prop for C04 {
                     Err(e) => out.fail("open:tar", format!("[tar] opening a valid archive failed: {e}")),
                 }
             } else {
-                match Tar::from_bytes(tbytes) {
+                match Tar::from_bytes(tbytes.clone()) {
                     Ok(t) => check_concurrently("tar", &t, &m, c.threads, &mut out),
                     Err(e) => out.fail("open:tar", format!("[tar] opening a valid archive failed: {e}")),
                 }
@@ -373,9 +373,74 @@ impl Prop for C04 {
             if out.failed() {
                 return Ok(());
             }
+            // (c') the same archive cut inside the data of the member whose data comes last
+            if let Some(k) = c.opts.damage {
+                let find_all = |needle: &[u8]| -> Vec<usize> { tbytes.windows(needle.len()).enumerate().filter(|(_, w)| *w == needle).map(|(i, _)| i).collect() };
+                let last = m
+                    .files
+                    .iter()
+                    .filter(|(_, b)| b.len() >= 8 && b.len() <= 4096)
+                    .filter_map(|(key, b)| {
+                        let at = find_all(b);
+                        (at.len() == 1).then(|| (at[0], key.clone(), b.len()))
+                    })
+                    .max();
+                // only if nothing else of the tree lies behind it
+                if let Some((at, (id, ext), len)) = last.filter(|(at, _, len)| tbytes[at + len..].iter().all(|&b| b == 0)) {
+                    let cut = at + 1 + (k as usize % (len - 1));
+                    match Tar::from_bytes(tbytes[..cut].to_vec()) {
+                        Ok(t) => {
+                            if let Ok(got) = t.read(&id, &ext) {
+                                if got.as_ref() != &m.files[&(id.clone(), ext.clone())][..] {
+                                    out.fail("truncated-member-read-ok:tar", format!("[tar] the archive was cut {} bytes into the data of its last member ({id:?}, {ext:?}), {len} bytes long: read succeeded and returned {} bytes that the tree does not hold", cut - at, got.as_ref().len()));
+                                    return Ok(());
+                                }
+                            }
+                            for ((i2, x2), bytes) in m.files.iter().filter(|(k2, _)| **k2 != (id.clone(), ext.clone())).take(4) {
+                                match t.read(i2, x2) {
+                                    Ok(b) if b.as_ref() == &bytes[..] => {}
+                                    _ => {
+                                        out.fail("damaged-archive-other-member:tar", format!("[tar] after cutting the archive inside its last member ({id:?}, {ext:?}) the intact member ({i2:?}, {x2:?}) no longer reads its bytes"));
+                                        return Ok(());
+                                    }
+                                }
+                            }
+                            out.label("tar-truncated");
+                        }
+                        Err(_) => out.excluded += 1,
+                    }
+                }
+            }
             // (d) embedded, through the macro's own expansion code
             match trees::expand_embedded(&root) {
-                Ok(owned) => EmbeddedHolder::new(owned).with(|e| check_concurrently("embedded", e, &m, c.threads, &mut out)),
+                Ok(owned) => {
+                    // the table as the macro writes it, then the same table written by hand in another order
+                    // (RawEmbedded is a public struct; nothing says its lists are sorted)
+                    let mut by_hand = trees::EmbeddedOwned { files: owned.files.clone(), dirs: owned.dirs.clone() };
+                    EmbeddedHolder::new(owned).with(|e| check_concurrently("embedded", e, &m, c.threads, &mut out));
+                    if !out.failed() && c.opts.order != 0 {
+                        let o = c.opts.order as usize;
+                        if o % 2 == 1 {
+                            by_hand.files.reverse();
+                            by_hand.dirs.reverse();
+                        }
+                        if !by_hand.files.is_empty() {
+                            let n = by_hand.files.len();
+                            by_hand.files.rotate_left((o / 2) % n);
+                        }
+                        if !by_hand.dirs.is_empty() {
+                            let n = by_hand.dirs.len();
+                            by_hand.dirs.rotate_left((o / 2) % n);
+                        }
+                        for (_, entries) in by_hand.dirs.iter_mut() {
+                            if !entries.is_empty() {
+                                let n = entries.len();
+                                entries.rotate_left((o / 3) % n);
+                            }
+                        }
+                        EmbeddedHolder::new(by_hand).with(|e| check_concurrently("embedded-by-hand", e, &m, c.threads, &mut out));
+                    }
+                }
                 Err(e) => out.fail("expand:embedded", format!("[embedded] the embed! expansion failed on a valid tree: {e}")),
             }
             Ok(())
